@@ -163,4 +163,45 @@ def start (period : Int) (cancelled : Nat → Bool) (turns : List Turn) : List I
 def startRun (c : Cfg) (period : Int) (cancelled : Nat → Bool) (turns : List Turn) (s : Store) : Store × List Ev :=
   (start period cancelled turns).foldl (fun acc cutoff => let r := doScan c cutoff acc.1; (r.1, acc.2 ++ r.2)) (s, [])
 
+/-! ### which calls the visitor callback makes into the store: the code, and the purge-when-all-expired variant -/
+
+/-- the mutating calls of the callback (selected by the regenerated fact `Gen.Retention.storeCalls`) -/
+inductive Sweep
+  /-- `RemoveMessage(msg.Mailbox(), msg.ID())` for each expired message of the snapshot — the code -/
+  | removeEach
+  /-- `if expired > 0 && expired == len(messages) { PurgeMessages(messages[0].Mailbox()); messages = nil }` before the
+      loop: ONE purge of the mailbox when every message of the snapshot has expired, otherwise message by message -/
+  | purgeWhenAllExpired
+  deriving DecidableEq, Repr
+
+/-- scanner state of the variant model; `fresh`: the callback has just been entered, the snapshot is still whole -/
+structure StV where
+  st : St
+  fresh : Bool
+
+def initV (s : Store) (names : List Bytes) : StV := { st := init s names, fresh := false }
+
+/-- one step of the scanner, for either variant.  With `removeEach` it is `scanStep` (`scanStepV_removeEach`); with
+    `purgeWhenAllExpired` the first step after a non-empty snapshot counts the expired messages and, if all are,
+    purges the mailbox (one call, deleting whatever the mailbox holds AT THAT MOMENT) and drops the snapshot. -/
+def scanStepV (k : Sweep) (c : Cfg) (cutoff : Int) (timerReady coin : Bool) (v : StV) : StV :=
+  match k, v.st.phase, v.fresh with
+  | .purgeWhenAllExpired, .sweep (m :: p) todo, true =>
+    if (m :: p).all (expired cutoff) then
+      let r := step c v.st.store (.purge m.box)
+      { st := { v.st with store := r.1, phase := .sweep [] todo, calls := v.st.calls + 1,
+                          removed := v.st.removed ++ v.st.store.msgs.filter (inBox m.box),
+                          events := v.st.events ++ r.2.2 },
+        fresh := false }
+    else { st := v.st, fresh := false }
+  | _, .visit (_ :: _), _ => { st := scanStep c cutoff timerReady coin v.st, fresh := true }
+  | _, _, _ => { st := scanStep c cutoff timerReady coin v.st, fresh := false }
+
+def actV (k : Sweep) (c : Cfg) (cutoff : Int) (timerReady : Bool) (v : StV) : Act → StV
+  | .scan coin => scanStepV k c cutoff timerReady coin v
+  | a => { v with st := act c cutoff timerReady v.st a }
+
+def runActsV (k : Sweep) (c : Cfg) (cutoff : Int) (timerReady : Bool) (v : StV) (acts : List Act) : StV :=
+  acts.foldl (actV k c cutoff timerReady) v
+
 end Ibx.Model.Retention
